@@ -135,6 +135,25 @@ def main():
         print(fmt(row), flush=True)
         record_meta(args[1], row)
         rows.append(row)
+    elif args[0] == "seeded-fast":
+        # every seeded mutant against its own property's check only, without the test suite (the suite result
+        # was established when the mutant was confirmed); a patch that no longer applies is reported as such
+        base = os.path.join(VERIF, "seeded")
+        for d in sorted(os.listdir(base)):
+            pf = os.path.join(base, d, "patch.diff")
+            mf = os.path.join(base, d, "meta.json")
+            if not os.path.exists(pf) or not os.path.exists(mf):
+                continue
+            if len(args) > 1 and not any(a in d for a in args[1:]):
+                continue
+            meta = json.load(open(mf, encoding="utf-8"))
+            props = [meta.get("breaks_property", d[:3])]
+            for p in (meta.get("final_status", "").replace("caught by ", "").split(",")):
+                if p in ALL and p not in props:
+                    props.append(p)
+            row = evaluate(d, ["git", "apply", pf], props[:2], with_tests=False)
+            print(fmt(row), flush=True)
+            rows.append(row)
     elif args[0] == "seeded":
         base = os.path.join(VERIF, "seeded")
         for d in sorted(os.listdir(base)):
